@@ -158,14 +158,14 @@ func eventBudget(pc *progCase) uint64 {
 var reProc = regexp.MustCompile(`s?prc\[[^\]]*\]`)
 var reHex = regexp.MustCompile(`0x[0-9a-f]+`)
 var reNum = regexp.MustCompile(`[0-9]+`)
-var reQuoted = regexp.MustCompile(`for [A-Za-z0-9_']+`)
+var reQuoted = regexp.MustCompile(`found for [A-Za-z0-9_']+`)
 
 // normDeath makes a death signature independent of generated names.
 func normDeath(stderr string) string {
 	s := sup.DeathSig(stderr)
 	s = reProc.ReplaceAllString(s, "prc[_]")
 	s = reHex.ReplaceAllString(s, "0x_")
-	s = reQuoted.ReplaceAllString(s, "for _")
+	s = reQuoted.ReplaceAllString(s, "found for _")
 	s = reNum.ReplaceAllString(s, "N")
 	s = strings.Join(strings.Fields(s), " ")
 	return s
